@@ -195,33 +195,51 @@ func VerifC06_Framing() {
 	verifrt.Assert(len(proc.events) == s.k+2, "callback count")
 	verifrt.Assert(proc.events[0] == "start" && proc.events[len(proc.events)-1] == "ext", "callback order")
 	verifrt.Assert(len(proc.inserts) == s.k, "every entry inserted exactly once")
-	// windows given to the decoder: sigalg(find), inner alg, issuer, entries..., [exts], sigalg
-	wi := 0
-	verifrt.Assert(eqBytes(wins[wi].b, p.outerAlg), "algorithm identifier located after tbsCertList")
-	wi++
-	verifrt.Assert(eqBytes(wins[wi].b, p.innerAlg), "inner algorithm window")
-	wi++
-	verifrt.Assert(eqBytes(wins[wi].b, p.issuer), "issuer window")
-	verifrt.Assert(wins[wi].obj == interface{}(res.Issuer), "issuer object returned")
-	wi++
-	for i := 0; i < s.k; i++ {
-		verifrt.Assert(wins[wi].kind == "entry", "entry decoded")
-		verifrt.Assert(eqBytes(wins[wi].b, p.file[p.entryOff[i]:p.entryOff[i]+p.entryLen[i]]), "entry window is exactly the i-th entry")
-		verifrt.Assert(interface{}(proc.inserts[i].RevokedCertificate) == wins[wi].obj, "i-th insert carries the i-th entry")
+	// windows given to the decoder, by kind (how often and in which order the reader decodes an element is
+	// its own business; WHAT it decodes, and what it hands on, is the property):
+	//   algorithm identifiers: only the inner and the outer one, both of them
+	//   names: only the issuer; the returned issuer is a decoded one
+	//   entries: exactly the k entries, in order, each handed to the consumer
+	//   extensions: exactly the crlExtensions sequence, iff present
+	var entryWins []win
+	sawInner, sawOuter, sawIssuer, sawExts, issuerReturned := false, false, false, false, false
+	for _, w := range wins {
+		switch w.kind {
+		case "alg":
+			isInner, isOuter := eqBytes(w.b, p.innerAlg), eqBytes(w.b, p.outerAlg)
+			verifrt.Assert(verifrt.Or(isInner, isOuter), "an algorithm identifier is decoded only from the inner or the outer signature algorithm element")
+			sawInner = verifrt.Or(sawInner, isInner)
+			sawOuter = verifrt.Or(sawOuter, isOuter)
+		case "rdn":
+			verifrt.Assert(eqBytes(w.b, p.issuer), "a name is decoded only from the issuer element")
+			sawIssuer = true
+			if w.obj == interface{}(res.Issuer) {
+				issuerReturned = true
+			}
+		case "entry":
+			entryWins = append(entryWins, w)
+		case "exts":
+			verifrt.Assert(s.hasExt && eqBytes(w.b, p.extSeq), "extensions are decoded only from the crlExtensions sequence")
+			sawExts = true
+		}
+	}
+	verifrt.Assert(sawOuter, "algorithm identifier located after tbsCertList (signature algorithm window)")
+	verifrt.Assert(sawInner, "inner algorithm window")
+	verifrt.Assert(sawIssuer && issuerReturned, "issuer window decoded and that object returned")
+	verifrt.Assert(len(entryWins) == s.k, "exactly the k entries are decoded")
+	for i := 0; i < s.k && i < len(entryWins); i++ {
+		verifrt.Assert(eqBytes(entryWins[i].b, p.file[p.entryOff[i]:p.entryOff[i]+p.entryLen[i]]), "entry window is exactly the i-th entry")
+		verifrt.Assert(interface{}(proc.inserts[i].RevokedCertificate) == entryWins[i].obj, "i-th insert carries the i-th entry")
 		verifrt.Assert(proc.inserts[i].Issuer == res.Issuer, "entry is filed under the CRL issuer")
-		last := p.file[p.entryOff[i]+p.entryLen[i]-1]
-		verifrt.Assert((len(proc.snaps[i].Extensions) > 0) == (last&1 == 1), "the consumer sees the entry extensions of THIS entry only (nothing carried over from an earlier entry)")
-		wi++
+		first := p.file[p.entryOff[i]+hdrLen(p.file[p.entryOff[i]:])]
+		verifrt.Assert((len(proc.snaps[i].Extensions) > 0) == (first&1 == 1), "the consumer sees the entry extensions of THIS entry only (nothing carried over from an earlier entry)")
 	}
 	if s.hasExt {
-		verifrt.Assert(wins[wi].kind == "exts" && eqBytes(wins[wi].b, p.extSeq), "extensions window")
+		verifrt.Assert(sawExts, "extensions window")
 		verifrt.Assert(res.CRLExtensions != nil, "extensions returned")
-		wi++
 	} else {
 		verifrt.Assert(res.CRLExtensions == nil, "no extensions invented")
 	}
-	verifrt.Assert(eqBytes(wins[wi].b, p.outerAlg), "signature algorithm window")
-	verifrt.Assert(len(wins) == wi+1, "no further decoding")
 	// digest covers exactly tbsCertList
 	verifrt.Assert(theHash.n == p.tbsLen, "digest length = tbsCertList")
 	verifrt.Assert(eqBytes(theHash.log[:p.tbsLen], p.file[p.tbsOff:p.tbsOff+p.tbsLen]), "digest bytes = tbsCertList")
